@@ -704,7 +704,21 @@ inline std::string href(const Url& u) {
   if (u.fragment) o += "#" + *u.fragment;
   return o;
 }
-// the same rendering as sim::snapshot() restricted to href and the nine component getters
+// origin serialisation (URL Standard "origin" of a URL + "ASCII serialization of an origin"): tuple origins for
+// ftp/http/https/ws/wss, the inner URL's origin for blob: URLs whose path parses to an http(s) URL, opaque otherwise
+inline std::string origin(const Url& u) {
+  auto tuple = [](const Url& x) {
+    return x.scheme + "://" + (x.host ? *x.host : std::string()) + (x.port ? ":" + std::to_string(*x.port) : std::string());
+  };
+  if (u.scheme == "blob") {
+    auto inner = parse(pathname(u), nullptr);
+    if (inner && (inner->scheme == "http" || inner->scheme == "https")) return tuple(*inner);
+    return "null";
+  }
+  if (u.scheme == "ftp" || u.scheme == "http" || u.scheme == "https" || u.scheme == "ws" || u.scheme == "wss") return tuple(u);
+  return "null";
+}
+// the same rendering as sim::snapshot() restricted to href, the nine component getters and origin
 inline std::string getters(const Url& u) {
   std::string o;
   auto add = [&](const char* k, const std::string& v) {
@@ -723,6 +737,7 @@ inline std::string getters(const Url& u) {
   add("pathname", pathname(u));
   add("search", (u.query && !u.query->empty()) ? "?" + *u.query : std::string());
   add("hash", (u.fragment && !u.fragment->empty()) ? "#" + *u.fragment : std::string());
+  add("origin", origin(u));
   return o;
 }
 
